@@ -27,6 +27,12 @@ HOSTILE_ENV = {
         b'SELECT INBOX', b'STORE 1:* +FLAGS (\\Deleted)', b'EXPUNGE']),
     'selected/recreated': dict(select=b'SELECT Sent', post=[
         b'DELETE Sent', b'CREATE Sent']),
+    # a message is delivered by a session that has nothing selected (its
+    # \Recent is credited to the victim's selection) and expunged by
+    # somebody else before the victim has ever seen it
+    'selected/delivered-then-expunged': dict(select=b'SELECT INBOX', post=[
+        b'APPEND INBOX (\\Deleted) {23+}\r\nSubject: x\r\n\r\nbody x\r\n',
+        b'SELECT INBOX', b'EXPUNGE']),
 }
 
 
